@@ -1,6 +1,7 @@
 (* C18_Corr.v — correspondence vocabulary for C18.  Kinds of cases (see [case] at the
    end): limiter level, operator level, operator level timed, operator level timed with a
-   shared queue that is held ([hcase], near the end).  A limiter-level case is: the `settings:` block the
+   shared queue that is held ([hcase], near the end), operator level timed with hooks of every
+   shape - start-up Synchronization runs, idle periods, single events ([scase], at the end).  A limiter-level case is: the `settings:` block the
    harness wrote into a hook configuration (values known to the generator: the interval
    in ns and the integer burst; None = key absent), a list of synthetic request instants
    (ns), a RateLimitWait probe (n calls with a deadline [budget] ns away), and what the
@@ -13,7 +14,7 @@
    instants (ns after the instant [0] taken before the goroutines were launched) at which
    the calls returned nil. *)
 From Coq Require Export Uint63.
-From Verif Require Import Common C18_Model C18_Spec C18_Proofs C18_Shared.
+From Verif Require Import Common C18_Model C18_Spec C18_Proofs C18_Shared C18_ShapeProofs.
 Open Scope Z_scope.
 
 (* Number literals: elaborating a 14-digit Z literal costs about 1 ms in Coq 8.16 and a
@@ -474,14 +475,104 @@ Definition P_case_h (c : hcase) : bool :=
 Lemma h_model_P c anchors : P_timed_for (hc_settings c) anchors (sr_all (h_model c)) = true.
 Proof. apply shared_P_timed_for_holds. Qed.
 
+(* ======================================================================================
+   Operator level, TIMED, hooks of every SHAPE: the real operator, started through its real
+   Start(), short intervals (100-300 ms, B 1-3).  A limited hook declares 1..6 kubernetes
+   bindings (grouped / ungrouped, executeHookOnSynchronization on / off, main or named queues),
+   schedule bindings, perhaps onStartup; other hooks (with or without settings, with bindings of
+   their own) may be loaded beside it.  Phase 1, start-up: Boot; the Synchronization runs (one
+   per binding, one per group, none for exempt bindings - every one of them passes the limiter)
+   start back to back as fast as the limiter lets them; every execution ends successfully as
+   soon as the harness sees it.  Phase 2: idle periods (nothing happens for N intervals: long
+   enough to refill a bucket of any size up to N) followed by SINGLE events - a kubernetes event
+   of one monitor or a tick of one crontab, each issued only when the operator was found idle
+   (all queues empty), so every event is one task executed on its own.
+
+   A case is: the hook configurations (shape and settings, as written into the hooks' --config
+   output), the instant taken BEFORE Start() was called, every event with the instant taken
+   before it was issued, the instant at which the harness saw all queues empty at the end, every
+   execution start with the instant at which the harness SAW it (late, never early), the
+   anchors (instants, taken first, at which the operator was then found idle), and the limiter
+   each loaded hook carries (Limit() == Inf, Burst()).
+
+   P: C18_Spec.P_shape on the seen instants - the anchored window bound with the CONFIGURED
+   (I, B) for the window that begins before the start-up and for every window that begins at an
+   idle instant; sound whatever the delays (C18_late_observation_sound).
+
+   Comparison with the model: the model ([run_shape]: limiters made from the settings alone) runs
+   Boot and the events at the observed instants with hooks that end the moment they start: the
+   same number of executions per hook (events are single), no start SEEN earlier than the model
+   starts it (C18_grants_monotone), and every hook's limiter is the one the model loads. *)
+Record scase := mkSCase {
+  sc_hooks : list hook_config;
+  sc_boot : Z;
+  sc_events : list (Z * action);     (* Tick c / KubeEv mon obj, with the instant taken before it was issued *)
+  sc_end : Z;
+  sc_starts : list (N * Z);          (* implementation: (hook, instant at which the start was seen), in order *)
+  sc_anchors : list Z;
+  sc_lims : list (N * bool * Z);     (* implementation: hook, Limit() == Inf, Burst() *)
+  sc_bad : bool                      (* the harness saw something impossible in any model, or the
+                                        queues never became empty *)
+}.
+
+Definition s_cfg (c : scase) : config := shape_config (sc_hooks c).
+Definition s_script (c : scase) : list (Z * action) :=
+  (sc_boot c, Boot) :: sc_events c ++ [(sc_end c, Idle)].
+Definition s_sim (c : scase) : sim := fold_left (sim_act (s_cfg c)) (s_script c) (init_shape (sc_hooks c), []).
+Definition s_model_starts (c : scase) : list (N * Z) := starts_all (l_log (fst (s_sim c))).
+Definition s_model_lims (c : scase) : list (N * bool * Z) :=
+  map (fun hc => let b := load_limiters (sc_hooks c) (hc_id hc) in (hc_id hc, is_none (b_limit b), b_burst b)) (sc_hooks c).
+
+Definition lim_eqb (a b : N * bool * Z) : bool :=
+  N.eqb (fst (fst a)) (fst (fst b)) && Bool.eqb (snd (fst a)) (snd (fst b))
+  && (* Burst() of an unlimited limiter is irrelevant: nothing ever waits on it *)
+     (snd (fst a) || Z.eqb (snd a) (snd b)).
+
+Definition agrees_s (c : scase) : bool :=
+  sortedb (map fst (s_script c))
+  && sortedb (map fst (snd (s_sim c)))
+  && drained (fst (s_sim c))
+  && forallb (fun hc =>
+       let m := starts_of (hc_id hc) (s_model_starts c) in
+       let i := starts_of (hc_id hc) (sc_starts c) in
+       Nat.eqb (length m) (length i) && never_earlier m i) (sc_hooks c)
+  && list_eqb lim_eqb (s_model_lims c) (sc_lims c).
+
+Definition P_case_s (c : scase) : bool :=
+  negb (sc_bad c) && P_shape (configured_settings (sc_hooks c)) (sc_boot c) (sc_anchors c) (sc_starts c).
+
+(* everything the simulation does is a run of the shape model on the script it hands back ... *)
+Lemma s_sim_is_run c : fst (s_sim c) = run_shape (sc_hooks c) (snd (s_sim c)).
+Proof.
+  unfold s_sim, run_shape. fold (s_cfg c).
+  assert (G : forall script s, fst s = run_lim (s_cfg c) (init_shape (sc_hooks c)) (snd s) ->
+              fst (fold_left (sim_act (s_cfg c)) script s)
+              = run_lim (s_cfg c) (init_shape (sc_hooks c)) (snd (fold_left (sim_act (s_cfg c)) script s))).
+  { induction script as [|ta r IH]; intros s H; [exact H|].
+    cbn [fold_left]. apply IH. unfold sim_act.
+    apply finish_all_ok. apply sim_step_ok. apply drain_until_ok. exact H. }
+  apply G. reflexivity.
+Qed.
+
+(* ... hence the model's starts satisfy the predicate used on the observations, for every
+   case (every shape, every list of events, every boot instant and every list of anchors) *)
+Lemma s_model_P c boot anchors :
+  sortedb (map fst (snd (s_sim c))) = true ->
+  P_shape (configured_settings (sc_hooks c)) boot anchors (s_model_starts c) = true.
+Proof.
+  intros Hs. unfold s_model_starts. rewrite s_sim_is_run.
+  exact (shape_P_holds (sc_hooks c) _ boot anchors Hs).
+Qed.
+
 (* ---- all kinds ---- *)
-Inductive case := CLim (c : lcase) | COp (c : opcase) | CTimed (c : tcase) | CHeld (c : hcase).
+Inductive case := CLim (c : lcase) | COp (c : opcase) | CTimed (c : tcase) | CHeld (c : hcase) | CShape (c : scase).
 
 Inductive mobs :=
 | MLim (o : obs)
 | MOp (steps : list (sobs * list N)) (starts : list (N * Z)) (throttled : list N) (overrun : bool)
 | MTimed (script : list (Z * action)) (starts : list (N * Z)) (drained : bool)
-| MHeld (single : bool) (runs : list srun).
+| MHeld (single : bool) (runs : list srun)
+| MShape (script : list (Z * action)) (starts : list (N * Z)) (drained : bool) (lims : list (N * bool * Z)).
 
 Definition model_obs (c : case) : mobs :=
   match c with
@@ -490,12 +581,13 @@ Definition model_obs (c : case) : mobs :=
                  (l_overrun (op_final c))
   | CTimed c => MTimed (snd (t_sim c)) (t_model_starts c) (drained (fst (t_sim c)))
   | CHeld c => MHeld (single_queue (hc_cfg c)) (h_model c)
+  | CShape c => MShape (snd (s_sim c)) (s_model_starts c) (drained (fst (s_sim c))) (s_model_lims c)
   end.
 
 Definition agrees (c : case) : bool :=
-  match c with CLim c => agrees_l c | COp c => agrees_op c | CTimed c => agrees_t c | CHeld c => agrees_h c end.
+  match c with CLim c => agrees_l c | COp c => agrees_op c | CTimed c => agrees_t c | CHeld c => agrees_h c | CShape c => agrees_s c end.
 Definition P_case (c : case) : bool :=
-  match c with CLim c => P_case_l c | COp c => P_case_op c | CTimed c => P_case_t c | CHeld c => P_case_h c end.
+  match c with CLim c => P_case_l c | COp c => P_case_op c | CTimed c => P_case_t c | CHeld c => P_case_h c | CShape c => P_case_s c end.
 
 Definition mismatches (cs : list case) : list N := indices_where (fun c => negb (agrees c)) cs.
 Definition spec_violations (cs : list case) : list N := indices_where (fun c => negb (P_case c)) cs.
